@@ -58,7 +58,10 @@ def small_alphabet(case, rng, cap):
 
 def long_inputs(case, rng, n, alphabet):
     out = []
-    exotic = [0xE9, 0x4E16, 0x1F600, 0xFFFD, 0x10FFFF, 0x80, 0x7FF, 0x800, 0xFFFF, 0x10000, -0x80, -0xFF, -0xC3, 0x0A, 0x20]
+    exotic = [0xE9, 0x4E16, 0x1F600, 0xFFFD, 0x10FFFF, 0x80, 0x7FF, 0x800, 0xFFFF, 0x10000, -0x80, -0xFF, -0xC3, 0x0A, 0x20, 0, 1, 0x7F]
+    # U+0000 is a character like any other: alone, at a token boundary, inside a token, before a line end
+    for a in alphabet[:3]:
+        out += [[0], [a, 0], [0, a], [a, 0, a], [a, a, 0, 0x0A, a], [a, 0x0A, 0, a]]
     for _ in range(n):
         L = rng.randint(5, 40)
         w = []
@@ -67,6 +70,89 @@ def long_inputs(case, rng, n, alphabet):
             # several lines per input: the driver resynchronises at the next line after a lexical error
             w.append(0x0A if x < 0.07 else (rng.choice(alphabet) if x < 0.87 else rng.choice(exotic)))
         out.append(w)
+    return out
+
+
+def in_class(e, c):
+    if e["k"] == "any":
+        return 0 <= c <= MAXRUNE
+    simple = lambda neg, items: any(lo <= c <= hi for lo, hi in items) != neg
+    return simple(e["neg"], e["items"]) and not (e["hassub"] and simple(e["sneg"], e["sitems"]))
+
+
+def derive(e, macros, rng, pool, depth=0):
+    """a random string of the expression's language (None when a class has no member in the candidate pool)"""
+    k = e["k"]
+    if k == "lit":
+        return list(e["cs"])
+    if k in ("cls", "any"):
+        cands = [c for c in pool if in_class(e, c)]
+        return [rng.choice(cands)] if cands else None
+    if k == "ref":
+        return derive(macros[e["name"]], macros, rng, pool, depth + 1)
+    if k == "alt":
+        return derive(rng.choice(e["es"]), macros, rng, pool, depth + 1)
+    if k == "cat":
+        out = []
+        for x in e["es"]:
+            s = derive(x, macros, rng, pool, depth + 1)
+            if s is None:
+                return None
+            out += s
+        return out
+    lo = 1 if k in ("plus", "plusng") else 0
+    n = 1 if (k == "opt" and rng.random() < 0.6) else (0 if k == "opt" else rng.randint(lo, 3 if depth < 3 else 1))
+    out = []
+    for _ in range(n):
+        s = derive(e["es"][0], macros, rng, pool, depth + 1)
+        if s is None:
+            return None if lo else []
+        out += s
+    return out
+
+
+def rule_inputs(case, rng, per_rule=3):
+    """inputs built from the rules themselves: for every rule of every mode reachable through @push_mode, a text that
+    enters the mode, a match of the rule, and then another match / a terminator-like tail / junk.  (All strings over a
+    five-letter alphabet up to length four do not reach `<!--a--` or the second `*/` of a comment.)"""
+    macros = {mc["name"]: mc["expr"] for mc in case.get("macros", [])}
+    pool = set()
+    for m in case["modes"]:
+        for r in m["rules"]:
+            expr_points(r["expr"], None, pool)
+    for mc in case.get("macros", []):
+        expr_points(mc["expr"], None, pool)
+    pool = sorted(c for c in pool if 0 <= c <= MAXRUNE and not (0xD800 <= c <= 0xDFFF))
+    byname = {m["name"]: m for m in case["modes"]}
+    entry = {"": []}
+    todo = [""]
+    while todo:
+        mn = todo.pop(0)
+        for r in byname[mn]["rules"]:
+            for a in r.get("actions", []):
+                if a[0] == "push" and (a[1] or "") in byname and (a[1] or "") not in entry:
+                    entry[a[1] or ""] = entry[mn] + [r]
+                    todo.append(a[1] or "")
+    out = []
+    for mn, path in entry.items():
+        pre = []
+        ok = True
+        for r in path:
+            s = derive(r["expr"], macros, rng, pool)
+            if s is None:
+                ok = False
+                break
+            pre += s
+        if not ok:
+            continue
+        for r in byname[mn]["rules"]:
+            for _ in range(per_rule):
+                s = derive(r["expr"], macros, rng, pool)
+                if not s:
+                    continue
+                tail = rng.choice([[], s[-2:], s[-1:] * 2, derive(r["expr"], macros, rng, pool) or [], [rng.choice(pool)] * 2])
+                tail2 = rng.choice([[], s[-2:], [rng.choice(pool)]])
+                out.append((pre + s + tail + tail2)[:60])
     return out
 
 
@@ -84,7 +170,7 @@ def lex_explore(rep, sc, cases, rng, cap, fullcap, nlong, ng="off", alpha_cap=5,
         al = small_alphabet(c, rng, alpha_cap)
         k = maxlen_for(len(al), cap)
         jobs.append({"case": c["gen"]["pkg"], "alphabet": al, "maxlen": k, "fulllen": min(k, maxlen_for(len(al), fullcap)),
-                     "extra": long_inputs(c, rng, nlong, al)})
+                     "extra": long_inputs(c, rng, nlong, al) + rule_inputs(c, rng, 3 if nlong <= 20 else 8)})
     recs = lcase.run_jobs(sc, runner, jobs)
     idx = {c["gen"]["pkg"]: i for i, c in enumerate(acc)}
     lcases = [tlc_lcase(c) for c in acc]
@@ -278,7 +364,7 @@ def c08(tier):
     quick = tier == "quick"
     ng = lgrams.ng_cases()
     if quick:
-        head, tail = ng[:-9], ng[-9:]
+        head, tail = ng[:-13], ng[-13:]
         rng.shuffle(head)
         ng = head[:36] + tail
     cases = json.loads(json.dumps(ng))
@@ -299,7 +385,7 @@ def c08(tier):
     for b in bad:
         run, c = lruns[b["r"]], acc[b["c"]]
         got, want = b["got"], b["want"]
-        rules = c["modes"][0]["rules"]
+        rules = [r for m in c["modes"] for r in m["rules"]]
         ngtoks = set()
         tn = tok_numbers(c)
         for r in rules:
